@@ -11,3 +11,7 @@ def wait_tables(ctx):
 
 def wrapper_tables(ctx):
     pass
+
+
+def completion_tables(ctx):
+    pass
